@@ -70,6 +70,50 @@ def install(it):
         return arr
     reg("symarr", symarr)
 
+    def absarr_(it_, ctx, name, n=None):
+        """a real-valued array of arbitrary (or given) length and content, known only through the laws of the
+        array algebra (pyvc/absarr.py)"""
+        from . import absarr
+        absarr.ensure_laws(ctx)
+        t = z3.Const(name, absarr.Arr)
+        ln = z3.Int(name + "_len")
+        ctx.inputs[name + "_len"] = ln
+        ctx.assume(z3.And(absarr.alen(t) == ln, ln >= 0, absarr.a_isreal(t)))
+        if n is not None:
+            ctx.assume(ln == lift(n))
+        return absarr.AbsArr(t)
+    reg("absarr", absarr_)
+
+    def energy(it_, ctx, a):
+        from . import absarr
+        return absarr.a_energy(a.term)
+    reg("energy", energy)
+
+    def bounded_response(it_, ctx, name):
+        """an uninterpreted (vectorised) frequency response of modulus <= 1 at every frequency"""
+        from . import absarr
+        uf = UFunc(name, True, "complex")
+
+        def hook(it2, ctx2, args):
+            f = z3.Function("map_" + name, absarr.Arr, absarr.Arr)
+            t = f(args[0].term)
+            ctx2.assume(z3.And(absarr.alen(t) == absarr.alen(args[0].term), absarr.a_bounded1(t)))
+            return absarr.AbsArr(t)
+        uf.abs_hook = hook
+        return uf
+    reg("bounded_response", bounded_response)
+
+    def delay_response(it_, ctx, k, dt=None):
+        """the frequency response of a pure delay by k whole samples (DFT shift theorem: assumed law)"""
+        from . import absarr
+        uf = UFunc("delay", True, "complex")
+
+        def hook(it2, ctx2, args):
+            return absarr.AbsArr(absarr.a_delay(lift(k), absarr.alen(args[0].term)))
+        uf.abs_hook = hook
+        return uf
+    reg("delay_response", delay_response)
+
     def ufunc(it_, ctx, name, vectorised=True, result="real"):
         return UFunc(name, vectorised, result)
     reg("ufunc", ufunc)
@@ -301,10 +345,12 @@ def install(it):
         return it_.call(fn, list(a), k, ctx)
     reg("call_real", call_real)
 
-    def loop_invariant(it_, ctx, qualname, ordinal, fn, name=None, havoc=()):
-        """inductive invariant for the ordinal-th loop (source order) of a repo function"""
+    def loop_invariant(it_, ctx, qualname, ordinal, fn, name=None, havoc=(), frame=()):
+        """inductive invariant for the ordinal-th loop (source order) of a repo function.  `frame`: containers /
+        objects the body mutates whose state neither the invariant nor anything proved after the loop relies on"""
         ctx.loop_invariants.setdefault(qualname, {})[ordinal] = dict(
-            fn=fn, name=name or ("%s#loop%d" % (qualname.rsplit(".", 1)[-1], ordinal)), havoc=list(havoc))
+            fn=fn, name=name or ("%s#loop%d" % (qualname.rsplit(".", 1)[-1], ordinal)), havoc=list(havoc),
+            frame=list(frame))
     reg("loop_invariant", loop_invariant)
 
     def extract_block(it_, ctx, qualname, first, last, params):
@@ -400,6 +446,9 @@ def deep_eq(it, ctx, a, b):
         if a2.shape != b2.shape:
             return False
         return z_and(*[deep_eq(it, ctx, x, y) for x, y in zip(a2.data, b2.data)]) if a2.data else True
+    from . import absarr as _ab
+    if isinstance(a, _ab.AbsArr) and isinstance(b, _ab.AbsArr):
+        return a.term == b.term
     if isinstance(a, SymArr) or isinstance(b, SymArr):
         a2 = a if isinstance(a, SymArr) else arrays.to_symarr(a if isinstance(a, Vec) else arrays.vec_from_nested(a))
         b2 = b if isinstance(b, SymArr) else arrays.to_symarr(b if isinstance(b, Vec) else arrays.vec_from_nested(b))
